@@ -10,6 +10,11 @@ Rows == SetToSeq(
        k \in StallKs, st \in {"idle", "readerBlocked", "closeReadActive"}, cl \in BOOLEAN }
    \cup { [adv |-> "stallPayload", k |-> k, state |-> st, op |-> "Close", client |-> cl, bound |-> Bound("Close", "stallPayload")] :
        k \in PayKs, st \in {"idle", "readerBlocked", "msgHalfRead", "closeReadActive"}, cl \in BOOLEAN })
-ASSUME PrintT(<<"rows", Len(Rows)>>)
-ASSUME ndJsonSerialize(IOEnv.OUT, Rows)
+(* an open streaming Writer whose unflushed data leaves the write buffer nearly full (every residue of the 4096-byte *)
+(* buffer), then Close against a peer that never reads: the Close frame's header itself has to flush *)
+HalfOpen == SetToSeq({ [adv |-> "noread", k |-> k, state |-> "writerHalfOpen", op |-> "Close", client |-> cl, bound |-> Bound("Close", "noread")] :
+                         k \in 4060..4096, cl \in BOOLEAN })
+AllRows == Rows \o HalfOpen
+ASSUME PrintT(<<"rows", Len(AllRows)>>)
+ASSUME ndJsonSerialize(IOEnv.OUT, AllRows)
 =============================================================================
